@@ -22,6 +22,7 @@ func init() {
 		"(3) LOWER: RulesBuilder.Apply names the per-key-group outbound OR / AND / the rule's outbound by (last key group, last condition), every multi-value emitter names OR for all but the last value and the callback's outbound for the last, every condition lowers to at least one match set; " +
 		"(4) DUAL: at every appendRule site the kernel match-set literal and the userspace compiled match agree on type, negation, outbound, mark, must and value source, and compileRoutingMatch decodes each type the way its emitter encodes it; " +
 		"(5) EXH: the ten routing functions are registered, every emitted match type has a case in Match and compileRoutingMatch, both defaults are errors; (6) FACETS: negated MAC adds the zero MAC, domain bit index = match-set index, process name needs a non-empty name; (7) fallback is emitted after the rules and required last. " +
+		"(8) PARSENUM: numeric rule values (ports, DSCP, marks) are parsed with base 0/10 and a bit size no wider than their destination type. " +
 		"Not decided: per-type predicates on concrete values (CIDR containment, port parsing), the domain matcher (C11), end-to-end decisions for concrete packets."})
 }
 
@@ -116,6 +117,7 @@ func runC01(c *Ctx) {
 	c01Dual(c)
 	c01Exh(c)
 	c01Facets(c)
+	c.R.Floor("PARSENUM", parseNumSites(c, "PARSENUM", []string{"component/routing"}, func(f string) bool { return f == "function_parser.go" || f == "matcher_builder.go" }), 2)
 }
 
 // ---- (3) lowering -------------------------------------------------------------
